@@ -1278,9 +1278,18 @@ def body_priors(c):
 # =========================================================================== Jacobian terms
 @st.composite
 def jacobian_cases(draw):
-    what = draw(st.sampled_from(["transformed", "transformed", "tree", "tree"]))
+    what = draw(st.sampled_from(["transformed", "transformed", "tree", "tree", "own"]))
     ex = draw(extras())
     c = {"what": what, "ex": ex}
+    if what == "own":
+        # the transforms the package ships itself; the leaf is the unconstrained argument, given either as one
+        # Parameter or as the list [first entry, remaining entries] the CLI writes for non-centred skygrids
+        c["transform"] = draw(st.sampled_from(OWN_TRANSFORMS))
+        c["path"] = draw(st.sampled_from(["short", "full"]))
+        k = draw(st.integers(1, 6))
+        c["v"] = [draw(logu(1e-2, 1e2)) if c["transform"] == "LogTransform" else draw(fl(-3.0, 3.0)) for _ in range(k)]
+        c["split"] = draw(st.booleans()) and k >= 2
+        return c
     if what == "tree":
         c["g"] = draw(gc.genealogies(3, 12))
         c["kind"] = draw(st.sampled_from(["ratio", "ratio", "shift"]))
@@ -1304,6 +1313,46 @@ def jacobian_cases(draw):
     return c
 
 
+OWN_TRANSFORMS = ["CumSumExpTransform", "CumSumTransform", "SoftPlusTransform", "CumSumSoftPlusTransform", "LogTransform"]
+OWN_REGISTERED = {"CumSumExpTransform", "LogTransform"}
+
+
+def body_own_transform(c):
+    ex = c["ex"]
+    name = c["transform"]
+    tags = {"cls": "TransformedParameter", "chain": name, "split": bool(c["split"])}
+    res = Res(nontrivial=False, tags=tags)
+    path = name if (c["path"] == "short" and name in OWN_REGISTERED) else "torchtree.distributions.transforms." + name
+    dom = "pos" if name == "LogTransform" else "real"
+    rg = ex["order"] == "ad_first"
+
+    def leaf(pid, vals):
+        p = tt.P(pid, vals)
+        if rg:
+            p["requires_grad"] = True
+        return p
+
+    if c["split"]:
+        x = [leaf("p.u0", c["v"][:1]), leaf("p.u1", c["v"][1:])]
+        ids = ["p.u0", "p.u1"]
+    else:
+        x = leaf("p.u", c["v"])
+        ids = ["p.u"]
+    specs = [{"id": "p", "type": "TransformedParameter", "transform": path, "x": x},
+             {"id": "target", "type": "JointDistributionModel", "distributions": ["p"]}]
+    dic = build_all(specs)
+    infos = []
+    for pid in ids:
+        inf = info(pid, "TransformedParameter", "x", dom)
+        inf.update(leaf=pid, chain=[name], layers=1)
+        infos.append(inf)
+    eng = Engine(res, dic, dic["target"], infos, ex, None, tags)
+    eng.lab("chain=" + name)
+    eng.lab("order=" + ex["order"])
+    eng.run(("own", name, c["split"], rnd(c["v"]), ex["order"]))
+    return res
+
+
 def body_jacobian(c):
     ex = c["ex"]
     if c["what"] == "tree":
@@ -1319,6 +1368,8 @@ def body_jacobian(c):
         eng.lab("order=" + ex["order"])
         eng.run(("tree", c["kind"], rnd(g), ex["order"]))
         return res
+    if c["what"] == "own":
+        return body_own_transform(c)
     inf = info("p", "TransformedParameter", "x", c["domain"], lower=c.get("lower"))
     specs, tps = apply_plan([tt.P("p", c["v"])], [inf], ex)
     tags = {"cls": "TransformedParameter", "chain": "+".join(inf["chain"])}
